@@ -55,6 +55,18 @@ func VerifC06Watch() {
 	vnd.Assert(!vnd.IsClosed(insW), "C06.insertwatch.open-when-handed-out")
 	w.Commit()
 
+	if vnd.Param("PRESET", 0) == 1 {
+		// primary keys that are prefixes of each other: "ab" ends up as an inner
+		// radix node holding an object but no children
+		w = d.db.WriteTxn(t)
+		for _, k := range []string{"ab", "abc"} {
+			t.Insert(w, &vobj{id: []byte(k), tags: [][]byte{{'t'}}, pfx: []byte{0x10}, plen: 4})
+		}
+		w.Commit()
+		w = d.db.WriteTxn(t)
+		t.Delete(w, &vobj{id: []byte("abc")})
+		w.Commit()
+	}
 	S := d.db.ReadTxn()
 	revS := t.Revision(S)
 	qid := vnd.Bytes("qid", L)
